@@ -215,6 +215,14 @@ def harnesses(E, tier):
         K, _ = KV(I)
         return z3.And(*inv_parts(K, I["entries"], aligned).values())
 
+    def rehashed(op, I, O):
+        """the table was rebuilt: epoch recorded, no tombstone left except the one of the key remove() has just deleted"""
+        tomb = cnt([k == 1 for k in O["keys"]])
+        left = bv(1 if (op == "remove" and O["res_some"]) else 0)
+        done = z3.And(O["epoch"] == I["rt"], tomb == left)
+        # get() returns before looking at the epoch when the table has no entry
+        return [("table not rebuilt (tombstones dropped, epoch recorded) for the new epoch", z3.Implies(I["entries"] != 0, done) if op == "get" else done)]
+
     hs = []
     rng_ops = {"get": lambda I: z3.BoolVal(True), "insert": lambda I: ule(I["entries"], 5), "remove": lambda I: ule(2, I["entries"])}
 
@@ -296,16 +304,11 @@ def harnesses(E, tier):
         def preC(I, op=op):
             return z3.And(pre_inv(I, True), ule(I["entries"], NC if op != "insert" else min(NC, 5)), arg_ok(I, True), I["epoch"] != I["rt"])
 
-        def rehashed(I, O, op=op):
-            done = z3.And(O["epoch"] == I["rt"], *[k != 1 for k in O["keys"]])
-            # get() returns before looking at the epoch when the table has no entry
-            return [("table not rebuilt (tombstones dropped, epoch recorded) for the new epoch", z3.Implies(I["entries"] != 0, done) if op == "get" else done)]
-
         def specC(I, O, op=op):
             b = base_spec(op, I, O, "%s after a collection" % op)
             if b:
                 return b
-            return functional(op, I, O) + post_inv(I, O, True) + [("capacity changed", O["capacity"] == CAP)] + rehashed(I, O)
+            return functional(op, I, O) + post_inv(I, O, True) + [("capacity changed", O["capacity"] == CAP)] + rehashed(op, I, O)
 
         def twC(I, O, op=op):
             if O["panic"] or O["hang"]:
@@ -325,7 +328,7 @@ def harnesses(E, tier):
             b = base_spec(op, I, O, "%s after a collection (arbitrary keys)" % op)
             if b:
                 return b
-            return functional(op, I, O) + post_inv(I, O, False) + [("capacity changed", O["capacity"] == CAP)] + rehashed(I, O)
+            return functional(op, I, O) + post_inv(I, O, False) + [("capacity changed", O["capacity"] == CAP)] + rehashed(op, I, O)
 
         def twG(I, O, op=op):
             if O["panic"] or O["hang"]:
@@ -342,7 +345,7 @@ def harnesses(E, tier):
         b = base_spec("remove", I, O, "remove with underflow rehash")
         if b:
             return b
-        return functional("remove", I, O) + post_inv(I, O, True) + [("capacity changed", O["capacity"] == CAP), ("tombstones survive the rehash", z3.And(*[k != 1 for k in O["keys"]]))]
+        return functional("remove", I, O) + post_inv(I, O, True) + [("capacity changed", O["capacity"] == CAP)] + rehashed("remove", I, O)
     hs.append(H("table-C/underflow/remove", "ObjectHashMap::remove -> underflow() -> rehash", ins,
                 lambda I: z3.And(pre_inv(I, True), arg_ok(I, True), I["epoch"] == I["rt"], ult(I["entries"], 2)), sym("remove"), nat("remove"), specU,
                 lambda I, O: [] if O["panic"] or O["hang"] else [("last entry removed", z3.BoolVal(bool(O["res_some"]))), ("rehash drops tombstones", z3.Or(*[k == 1 for k in KV(I)[0]]))],
